@@ -1301,7 +1301,17 @@ func (broker *Broker) finish(file sts.Polled) {
 		// file in the "done" state but wasn't cleaned up, which means it
 		// would eventually be removed from the cache (age off) and then get
 		// picked up again to be sent redundantly.
-		broker.Conf.Cache.Done(file.GetName(), func(cached sts.Cached) {
+		done := broker.Conf.Cache.Done
+		if c, ok := broker.Conf.Cache.(interface {
+			DoneIfHash(string, string, func(sts.Cached))
+		}); ok && file.GetHash() != "" {
+			// The check above and marking done have to be one step: the
+			// scanner may be putting a changed file in the cache right now
+			done = func(name string, whileLocked func(sts.Cached)) {
+				c.DoneIfHash(name, file.GetHash(), whileLocked)
+			}
+		}
+		done(file.GetName(), func(cached sts.Cached) {
 			if broker.canDelete(cached) {
 				if changed, _ := broker.Conf.Store.Sync(cached); changed != nil {
 					// The file on disk is not the one that was confirmed
